@@ -97,11 +97,15 @@ def XStream.getPos (x : XStream) (n : Nat) : Option Entry :=
   | none => none
   | some i => rowEntry (x.row i)
 
-/-- `PDFXRefStream.get_objids` (after the fix: the row index keeps counting across ranges). -/
+/-- `PDFXRefStream.get_objids` (the row index keeps counting across ranges; rows whose offset
+lies at or beyond the end of the data are not read).  The code `return`s at the first such row;
+the offset `entlen * index` never decreases along the loop, so every later row fails the same
+test and skipping them one by one is the same thing. -/
 def objidsAux (x : XStream) : List (Nat × Nat) → Nat → List Nat
   | [], _ => []
   | (s, c) :: rest, idx =>
-    ((List.range c).filterMap (fun i => if inUseType (x.rowType (idx + i)) then some (s + i) else none))
+    ((List.range c).filterMap (fun i =>
+        if rowInData (x.entlen * (idx + i)) x.data.length && inUseType (x.rowType (idx + i)) then some (s + i) else none))
       ++ objidsAux x rest (idx + c)
 
 def XStream.getObjids (x : XStream) : List Nat := objidsAux x x.ranges 0
@@ -121,9 +125,10 @@ def choplist2 : List Nat → List (Nat × Nat)
 def xsLoad (size : Nat) (index : Option (List Nat)) (w : List Nat) (data : Bytes) : Except Err XStream :=
   let ia := index.getD (defaultIndex size)
   if ia.length % 2 ≠ 0 then .error .syntax else
+  if w.length != widthsArity then .error .noValidXRef else
   match w with
-  | [a, b, c] => .ok ⟨choplist2 ia, a, b, c, data⟩
-  | _ => .error .valueErr
+  | [a, b, c] => if zeroLengthRows a b c then .error .noValidXRef else .ok ⟨choplist2 ia, a, b, c, data⟩
+  | _ => .error .unmodelled
 
 /-! ### `PSBaseParser.nextline` and the classic table text (`PDFXRef.load`) -/
 
@@ -397,15 +402,18 @@ def search (objs : List (Nat × Nat × Nat × Val)) (rec : Nat → Except Err Va
       | .error .eof => search objs rec n rest
       | .error x => .error x
 
-/-- `getobj` without the cache; fuel bounds the nesting of container look-ups. -/
-def getobjF (objs : List (Nat × Nat × Nat × Val)) (xrefs : List Section) : Nat → Nat → Except Err Val
-  | 0, _ => .error .recursion
-  | fuel + 1, n => search objs (getobjF objs xrefs fuel) n xrefs
+/-- `getobj` without the cache.  `ip` is `_objstms_in_progress`: a container that is being
+fetched is not fetched again (`PDFSyntaxError`, the search goes on with the next section); the
+fuel only makes the recursion structural. -/
+def getobjF (objs : List (Nat × Nat × Nat × Val)) (xrefs : List Section) : Nat → List Nat → Nat → Except Err Val
+  | 0, _, _ => .error .recursion
+  | fuel + 1, ip, n =>
+    search objs (fun c => if ip.contains c then .error .syntax else getobjF objs xrefs fuel (c :: ip) c) n xrefs
 
 def getobjFuel : Nat := 64
 
 def getobj (objs : List (Nat × Nat × Nat × Val)) (xrefs : List Section) (n : Nat) : Except Err Val :=
-  getobjF objs xrefs getobjFuel n
+  getobjF objs xrefs getobjFuel [] n
 
 /-! ### `getobj` with `_cached_objs` (`caching=True`) -/
 
@@ -435,13 +443,14 @@ def searchC (objs : List (Nat × Nat × Nat × Val)) (rec : Cache → Nat → Ex
 
 /-- `getobj` with `caching=True`: a hit returns the cached value, a successful search is stored. -/
 def getobjC (objs : List (Nat × Nat × Nat × Val)) (xrefs : List Section) :
-    Nat → Cache → Nat → Except Err Val × Cache
-  | 0, c, _ => (.error .recursion, c)
-  | fuel + 1, c, n =>
+    Nat → List Nat → Cache → Nat → Except Err Val × Cache
+  | 0, _, c, _ => (.error .recursion, c)
+  | fuel + 1, ip, c, n =>
     match lookupNat c n with
     | some v => (.ok v, c)
     | none =>
-      match searchC objs (getobjC objs xrefs fuel) n xrefs c with
+      match searchC objs (fun c' s => if ip.contains s then (.error .syntax, c') else getobjC objs xrefs fuel (s :: ip) c' s)
+          n xrefs c with
       | (.ok v, c') => (.ok v, (n, v) :: c')
       | (.error x, c') => (.error x, c')
 
@@ -450,7 +459,7 @@ def queriesC (objs : List (Nat × Nat × Nat × Val)) (xrefs : List Section) :
     List Nat → Cache → List (Except Err Val)
   | [], _ => []
   | n :: rest, c =>
-    let r := getobjC objs xrefs getobjFuel c n
+    let r := getobjC objs xrefs getobjFuel [] c n
     r.1 :: queriesC objs xrefs rest r.2
 
 /-! ### The document: `PDFDocument.__init__` as far as cross-references go -/
